@@ -175,15 +175,57 @@ def gen(job, ctx):
                 yield s, s, ref, readings(h12, mi, 0, ap, True), 'datetime', 'date at h:mm ap|' + name, dval.isoformat()
 
 
+# <relative date word> <at> <time> in the other cultures: am / pm written the culture's way (words and am/pm letters) and 24-hour times.
+# fr-fr: 'N heures du matin' / "de l'après-midi" after a date are split by the unchanged tree (only 'Nh du matin' is one entity) and are left out.
+CULT_COMPOSED = {
+    'es-es': (['hoy', 'mañana', 'ayer', 'pasado mañana'], {'am': ['{d} a las {h} de la mañana', '{d} a las {h}:{mm} de la mañana', '{d} a las {h}am'],
+                                                         'pm': ['{d} a las {h} de la tarde', '{d} a las {h}:{mm} de la tarde', '{d} a las {h}pm'], '24': ['{d} a las {H}:{mm}']}),
+    'fr-fr': (["aujourd'hui", 'demain', 'hier', 'après-demain'], {'am': ['{d} à {h}h du matin'], '24': ['{d} à {H}h{mm}', '{d} à {H}:{mm}']}),
+    'pt-br': (['hoje', 'amanhã', 'ontem', 'depois de amanhã'], {'am': ['{d} às {h} da manhã', '{d} às {h}:{mm} da manhã'], 'pm': ['{d} às {h} da tarde', '{d} às {h}:{mm} da tarde'], '24': ['{d} às {H}:{mm}']}),
+    'it-it': (['oggi', 'domani', 'ieri', 'dopodomani'], {'am': ['{d} alle {h} del mattino', '{d} alle {h}:{mm} del mattino'], 'pm': ['{d} alle {h} del pomeriggio', '{d} alle {h}:{mm} del pomeriggio'],
+                                                        '24': ['{d} alle {H}:{mm}']}),
+    'de-de': (['heute', 'morgen', 'gestern', 'übermorgen'], {'am': ['{d} um {h} Uhr morgens', '{d} um {h}:{mm} Uhr morgens'], 'pm': ['{d} um {h} Uhr nachmittags', '{d} um {h}:{mm} Uhr nachmittags'],
+                                                            '24': ['{d} um {H}:{mm} Uhr', '{d} um {H}:{mm}']}),
+    'nl-nl': (['vandaag', 'morgen', 'gisteren', 'overmorgen'], {'am': ["{d} om {h} uur 's ochtends", "{d} om {h}:{mm} 's ochtends"], 'pm': ["{d} om {h} uur 's middags", "{d} om {h}:{mm} 's middags"],
+                                                               '24': ['{d} om {H}:{mm}', '{d} om {H}:{mm} uur']}),
+    'zh-cn': (['今天', '明天', '昨天', '后天'], {'am': ['{d}上午{h}点', '{d}早上{h}点{mm}分'], 'pm': ['{d}下午{h}点', '{d}下午{h}点{mm}分'], '24': ['{d}{H}点{mm}分', '{d}{H}:{mm}']}),
+}
+CULT_COMPOSED['es-mx'] = CULT_COMPOSED['es-es']
+DAY_OFFSETS = [0, 1, -1, 2]
+
+
+def run_composed_culture(job, ctx):
+    cu = job['culture']
+    m = dtlib.dt_model(cu)
+    r = ctx.rng('c07:composed:' + cu)
+    refs = dtlib.refs(r, 6 if ctx.tier == 'quick' else 60)
+    days, fam = CULT_COMPOSED[cu]
+    for R in refs:
+        for pol, tpls in fam.items():
+            for t in tpls:
+                for di, d in enumerate(days):
+                    hours = [0, 9, 13, 23, r.randrange(24)] if pol == '24' else [1, 6, 11, r.randrange(1, 12)]
+                    for h in hours:
+                        has_m = '{mm}' in t
+                        mi = r.choice([0, 30, r.randrange(60)]) if has_m else 0
+                        q = t.format(d=d, h=h, H='%02d' % h, mm='%02d' % mi)
+                        want = readings(h, mi, 0, None if pol == '24' else pol, has_m)
+                        dval = (R.date() + dt.timedelta(days=DAY_OFFSETS[di])).isoformat()
+                        check(m, q, q, R, want, 'datetime', ctx, 'date word + time|%s|%s' % (pol, t), dval, culture=cu)
+
+
 def plan(tier, seed):
     sh = {'hhmm': 5, 'hhmmss': 3, '12h': 3, 'composed': 2} if tier == 'quick' else {'hhmm': 4, 'hhmmss': 6, '12h': 4, 'composed': 2}
     jobs = [{'name': '%s%d' % (p, i), 'part': p, 'shard': i, 'shards': n} for p, n in sh.items() for i in range(n)]
     # 24-hour HH:MM in the other cultures (the bare form is culture independent)
     jobs += [{'name': 'hhmm-' + cu, 'part': 'hhmm-culture', 'culture': cu, 'shard': 0, 'shards': 1} for cu in dtlib.DT_CULTURES if cu != 'en-us']
+    jobs += [{'name': 'composed-' + cu, 'part': 'composed-culture', 'culture': cu, 'shard': 0, 'shards': 1} for cu in sorted(CULT_COMPOSED)]
     return jobs
 
 
 def run(job, ctx):
+    if job['part'] == 'composed-culture':
+        return run_composed_culture(job, ctx)
     if job['part'] == 'hhmm-culture':
         cu = job['culture']
         m = dtlib.dt_model(cu)
